@@ -89,7 +89,8 @@ Theorem C11_lex_whitespace_irrelevant : forall ls gs1 gs2 g1 g2 f,
   lex f (weave g1 (combine ls gs1)) = lex f (weave g2 (combine ls gs2)).
 Proof. exact lex_whitespace_irrelevant. Qed.
 (* a token followed by a whitespace character ends exactly there, whatever comes after (every token class: names and
-   keywords, $-names, numbers with and without fraction, quoted tokens with escapes, one- and two-character operators) *)
+   keywords, $-names, numbers with and without fraction, date / time literals, quoted tokens with escapes, one- and
+   two-character operators) *)
 Theorem C11_token_then_whitespace : forall s l r, scan s = Some (l, r) -> ws_led r ->
   s = l ++ r /\ l <> [] /\ forall r', ws_led r' -> scan (l ++ r') = Some (l, r').
 Proof. exact scan_token_then_ws. Qed.
@@ -101,22 +102,29 @@ Theorem C11_line_comment_skipped : forall body s nl,
   skipm MTop (47 :: 47 :: body ++ nl :: s)%N = skipm MTop s.
 Proof. exact skipm_line_comment. Qed.
 Example C11_lexemes_nonvacuous :
-  Forall lexeme [[97;95;49]; [49;50;46;53]; [39;97;92;39;98;39]; [36;116;104;105;115]; [60;61]; [33;126]; [47]; [96;32;96]]%N.
+  Forall lexeme [[97;95;49]; [49;50;46;53]; [39;97;92;39;98;39]; [36;116;104;105;115]; [60;61]; [33;126]; [47]; [96;32;96];
+                 [64;50;48;50;48;45;48;51;84;49;48;58;51;48;90]; [64;84;49;48;58;51;48;58;49;53;46;53]]%N.
 Proof. exact lexeme_examples. Qed.
 (* PROVED (session 3, the gap statement for whitespace at full strength): for ANY source s -- accepted by the lexer or
    not -- and ANY token boundary of it (b is s itself, or what is left of s right after one of its default-channel
    tokens: `reach s b`), inserting any non-empty whitespace at that boundary, also where the source has no gap there
    (`1+2` versus `1 + 2`, `a.b` versus `a . b`, `x<=y` versus `x <= y`), leaves the token stream unchanged.  Covers every
-   token class of the model, comments elsewhere in the source (closed, line, and ANTLR's fallback for `/*` that never
+   token class of the model (DATE / DATETIME / TIME literals included), comments elsewhere in the source (closed, line, and ANTLR's fallback for `/*` that never
    closes: whitespace inserted into it does not close it), for every fuel. *)
 Theorem C11_lex_insert_whitespace : forall s b, reach s b -> forall pre g f, s = pre ++ b -> wsne g ->
   lex f (pre ++ g ++ b) = lex f (pre ++ b).
 Proof. exact lex_insert_ws. Qed.
-(* the two locality facts it rests on: a token ends where it ended whenever what follows still stops it, and the
+(* the two locality facts it rests on: a token ends where it ended whenever what follows is, from some point on,
+   unchanged, nothing, or whitespace-led (`sim`), and the
    hidden-channel automaton hands over the same position when whitespace is inserted behind that position *)
 Theorem C11_scan_stable : forall s l r, scan s = Some (l, r) ->
-  s = l ++ r /\ l <> [] /\ forall r', follows_like r r' -> scan (l ++ r') = Some (l, r').
+  s = l ++ r /\ l <> [] /\ forall r', sim r r' -> scan (l ++ r') = Some (l, r').
 Proof. exact scan_stable. Qed.
+(* the DATE / DATETIME / TIME literal grammar (nested optional parts) has the same locality, proved once for every
+   well-formed grammar of that shape *)
+Theorem C11_literal_grammar_stable : forall g, gwf g -> forall s l r, run g s = Some (l, r) ->
+  s = l ++ r /\ forall r', sim r r' -> run g (l ++ r') = Some (l, r').
+Proof. exact run_stable. Qed.
 Theorem C11_unclosed_comment_stays_unclosed : forall a b g m, wsne g -> m = MBlock \/ m = MStar ->
   skipm m (a ++ b) = None -> skipm m (a ++ g ++ b) = None.
 Proof. exact block_unclosed_ins. Qed.
@@ -124,8 +132,7 @@ Example C11_reach_nonvacuous :
   reach [49; 43; 50; 46; 53; 60; 61; 120]%N [50; 46; 53; 60; 61; 120]%N /\ reach [49; 43; 50; 46; 53; 60; 61; 120]%N [60; 61; 120]%N.
 Proof. exact reach_example. Qed.
 (* NOT PROVED (correspondence only): comments as the inserted gap (a comment inserted after a `/*` that never closes
-   does change the tokens, in the generated lexer too: see DESIGN), DATE / DATETIME / TIME literals, the fallback
-   reading of quoted tokens. *)
+   does change the tokens, in the generated lexer too: see DESIGN), the fallback reading of quoted tokens. *)
 Print Assumptions C11_lex_spaced_tokens.
 Print Assumptions C11_lex_whitespace_irrelevant.
 Print Assumptions C11_token_then_whitespace.
@@ -133,4 +140,5 @@ Print Assumptions C11_lex_leading_whitespace.
 Print Assumptions C11_line_comment_skipped.
 Print Assumptions C11_lex_insert_whitespace.
 Print Assumptions C11_scan_stable.
+Print Assumptions C11_literal_grammar_stable.
 Print Assumptions C11_unclosed_comment_stays_unclosed.
